@@ -690,10 +690,60 @@ func Retain(desc string, b []byte) {
 	if len(b) == 0 || !RetainEnabled {
 		return
 	}
+	// the result belongs to the caller, spare capacity included: a caller that appends to it writes there.
+	// Whatever lies behind len(b) must not be anybody else's memory (another part of the same result, a
+	// neighbouring value of a parsed set, a pooled buffer): it is overwritten now, and every retained
+	// result is compared with its snapshot later.
+	ScribbleSpare(b)
 	retMu.Lock()
 	retRing = append(retRing, retained{desc: desc, b: b, snap: append([]byte(nil), b...), from: retFrom})
 	if len(retRing) > retCap {
 		retRing = retRing[len(retRing)-retCap:]
+	}
+	retMu.Unlock()
+}
+
+// ScribbleSpare overwrites the spare capacity b[len(b):cap(b)] of a slice the library returned.
+func ScribbleSpare(b []byte) {
+	x := b[len(b):cap(b)]
+	for i := range x {
+		x[i] = 0xC3 ^ byte(i*5)
+	}
+}
+
+// SharedSpare reports the first pair (i, j) such that overwriting the spare capacity of parts[i] changes
+// parts[j]: the parts of one result must be independent of each other for a caller that appends to one.
+func SharedSpare(parts [][]byte) (i, j int, shared bool) {
+	snap := make([][]byte, len(parts))
+	for k := range parts {
+		snap[k] = append([]byte(nil), parts[k]...)
+	}
+	for a := range parts {
+		ScribbleSpare(parts[a])
+		for b := range parts {
+			if string(parts[b]) != string(snap[b]) {
+				return a, b, true
+			}
+		}
+	}
+	return 0, 0, false
+}
+
+// Overwrite fills a result the caller is done with (it owns it: a send buffer that is recycled, a value
+// that is edited in place) and, if the result is retained, keeps its snapshot in step. Later calls of the
+// library must not see it: a memoised or interned result that was handed out shows up as a wrong answer.
+func Overwrite(b []byte) {
+	if len(b) == 0 {
+		return
+	}
+	for k := range b {
+		b[k] = 0x5A ^ byte(k*3)
+	}
+	retMu.Lock()
+	for i := range retRing {
+		if len(retRing[i].b) > 0 && &retRing[i].b[0] == &b[0] {
+			retRing[i].snap = append(retRing[i].snap[:0], retRing[i].b...)
+		}
 	}
 	retMu.Unlock()
 }
